@@ -12,7 +12,13 @@ import param
 # encodings (JSON-able):  value = vlib.core enc format; a parameter spec is
 #   {"t": type name, "cfg": {...}, "default": encoded valid value, "value": encoded valid value}
 
-_text = st.text(alphabet=st.sampled_from(list("ab\"\\/\n\t é€\ud800 0")), max_size=5)
+_text = st.one_of(
+    st.text(alphabet=st.sampled_from(list("ab\"\\/\n\t é€\ud800 0")), max_size=5),
+    st.text(alphabet=st.sampled_from(list("ab\"\\/\n\t é€\ud800 0")), max_size=5),
+    st.text(alphabet=st.sampled_from(list("ab\"\\/\n\t é€\ud800 0")), max_size=5),
+    # strings that spell a JSON / Python literal are ordinary strings
+    st.sampled_from(["null", "true", "false", "NaN", "None", "Infinity", "[]", "{}", "1", "1.0", "\"a\""]),
+)
 _fin = st.one_of(
     st.integers(-10, 10), st.sampled_from([2 ** 53 + 1, -2 ** 70, 10 ** 25]),
     st.floats(allow_nan=False, allow_infinity=False),
@@ -120,9 +126,9 @@ def param_spec(draw, types=TYPES, for_schema=False):
         if t == "Dict":
             return draw(st.dictionaries(_text, _json, max_size=3))
         if t == "Selector":
-            return draw(st.sampled_from(cfg["objects"]))
+            return draw(st.sampled_from(cfg["objects"] + cfg.get("objects_appended", [])))
         if t == "ListSelector":
-            return draw(st.lists(st.sampled_from(cfg["objects"]), max_size=3))
+            return draw(st.lists(st.sampled_from(cfg["objects"] + cfg.get("objects_appended", [])), max_size=3))
         if t == "Color":
             return draw(st.sampled_from(["#fff", "#00ff7f", "abcdef", "#ABC", "000"]))
         if t == "ClassSelector":
@@ -140,6 +146,9 @@ def param_spec(draw, types=TYPES, for_schema=False):
             # soft bounds are GUI hints only: tighter than the hard bounds, or present where no hard bound is
             lo, hi = b if b is not None else (None, None)
             cfg["softbounds"] = ((lo + 1) if lo is not None else -1, (hi - 1) if hi is not None else 1)
+        if t != "Range" and draw(st.integers(0, 3)) == 0:
+            # so is the step: values need not be multiples of it
+            cfg["step"] = draw(st.sampled_from([2, 3, 7] if t == "Integer" else [2, 3, 0.25, 7]))
     elif t in ("Tuple", "NumericTuple"):
         cfg["length"] = draw(st.integers(0 if t == "Tuple" else 1, 3))
     elif t == "List":
@@ -150,7 +159,14 @@ def param_spec(draw, types=TYPES, for_schema=False):
         if it is not None:
             cfg["item_type"] = it
     elif t in ("Selector", "ListSelector"):
-        cfg["objects"] = draw(st.sampled_from([[1, 2, 3], ["a", "b"], [1, "a", 2.5], [0.5, 1.5], [None, 1], ["x"], [1, 2.0]]))
+        cfg["objects"] = draw(st.sampled_from([[1, 2, 3], ["a", "b"], [1, "a", 2.5], [0.5, 1.5], [None, 1], ["x"], [1, 2.0],
+                                               ["null", "a"], [72, 300]]))
+        if draw(st.integers(0, 2)) == 0:
+            cfg["objects_style"] = "dict"      # declared as {label: object}
+        if draw(st.integers(0, 2)) == 0:
+            # objects that joined the list after the declaration (they have no label in a dict declaration)
+            first = cfg["objects"][0]
+            cfg["objects_appended"] = [draw(st.sampled_from(["zz", "q"] if isinstance(first, str) else [150, 7.5]))]
     elif t == "ClassSelector":
         cfg["class_"] = draw(st.sampled_from([int, str, float, (int, str)]))
     if t in ("Selector", "ListSelector") and for_schema and draw(st.integers(0, 5)) == 0:
@@ -175,8 +191,21 @@ def build_class(specs, name="K"):
         kw = dict(cfg)
         if t in ("Tuple", "NumericTuple") and "length" in kw and d is not None and len(d) == 0:
             pass
-        ns[f"p{i}"] = getattr(param, t)(default=d, **kw)
-    return type(name, (param.Parameterized,), ns)
+        appended = kw.pop("objects_appended", [])
+        if kw.pop("objects_style", None) == "dict":
+            kw["objects"] = {f"label{j}": o for j, o in enumerate(kw["objects"])}
+        # the default is installed after the appended objects exist (it may be one of them)
+        in_decl = d is None or not appended or not any(d is a or d == a for a in appended + [[a] for a in appended])
+        if isinstance(d, list) and appended and any(x in appended for x in d):
+            in_decl = False
+        ns[f"p{i}"] = (getattr(param, t)(default=d, **kw) if in_decl else getattr(param, t)(**kw), appended, d, in_decl)
+    K = type(name, (param.Parameterized,), {n: v[0] for n, v in ns.items()})
+    for n, (_p, appended, d, in_decl) in ns.items():
+        for a in appended:
+            K.param[n].objects.append(a)
+        if not in_decl:
+            setattr(K, n, d)
+    return K
 
 
 # ---------------------------------------------------------------------------
@@ -206,7 +235,7 @@ def enc_spec(spec):
             c[k] = list(x)
         elif k in ("item_type", "class_"):
             c[k] = _enc_type(x)
-        elif k == "objects":
+        elif k in ("objects", "objects_appended"):
             c[k] = [_enc(o) for o in x]
         else:
             c[k] = x
@@ -223,7 +252,7 @@ def dec_spec(e):
             cfg[k] = tuple(x)
         elif k in ("item_type", "class_"):
             cfg[k] = _dec_type(x)
-        elif k == "objects":
+        elif k in ("objects", "objects_appended"):
             cfg[k] = [_dec(o) for o in x]
         else:
             cfg[k] = x
